@@ -1,6 +1,6 @@
 """C04 -- the verdict of a run, and its diagnosis, are exactly determined by what happened."""
 
-from . import runrules, nested, predicates, causes, common
+from . import runrules, nested, predicates, causes, common, taint
 
 
 def check(ctx, rep):
@@ -14,9 +14,10 @@ def check(ctx, rep):
         "the nested form over path facts: success or non-critical => return the inherited verdict; critical "
         "and timed out => TimeoutError; critical failure => re-raise the very object returned by a critical "
         "member's exception accessor. R04.4 the window wrapper never replaces a job's exception. R04.6 the "
-        "synchronous run() is transparent: it returns the value of driving co_run() once, unprotected and unwrapped. R04.7 (= R02.6) raised_exception(), which the run reads to tell a failure, is the exception of the job's own task for atomic jobs and nested schedulers alike. R04.9 = R05.9 / R08.6 for `critical` and `timeout`. R04.8 in the run, its nested form, the window wrapper and their private coroutines, an exception value is compared with None, never used as a boolean (its truth value is whatever its class says). R04.10 (= R05.1) the run aborts exactly on `a done task raised and its job is critical`, where `raised` is read from the task (its exception), not from what the job returned.")
+        "synchronous run() is transparent: it returns the value of driving co_run() once, unprotected and unwrapped. R04.7 (= R02.6) raised_exception(), which the run reads to tell a failure, is the exception of the job's own task for atomic jobs and nested schedulers alike. R04.9 = R05.9 / R08.6 for `critical` and `timeout`. R04.8 in the run, its nested form, the window wrapper and their private coroutines, an exception value is compared with None, never used as a boolean (its truth value is whatever its class says). R04.10 (= R05.1) the run aborts exactly on `a done task raised and its job is critical`, where `raised` is read from the task (its exception), not from what the job returned. R04.11 the main wait is awaited as it is, under no outer bound (wait_for / timeout()): an outer bound that expires cancels the wait and throws away what completed at that instant. R04.12 (= R06.12) failed_time_out(), failed_critical() and why() read what the run recorded about itself, never what a job returned or raised.")
     rep.declined = ["which cause is reported when expiry, last completion and a critical failure share one loop iteration"]
     rep.trusted = ["T1", "T8"]
+    runrules.main_wait_direct(ctx, rep, "R04.11")
     causes.exit_verdict_flags(ctx, rep, "R04.1")
     causes.flag_tables(ctx, rep, "R04.2", "R04.5")
     nested.critical_mapping(ctx, rep, "R04.3")
@@ -26,3 +27,4 @@ def check(ctx, rep):
     predicates.config_verbatim(ctx, rep, "R04.9", ('critical', 'timeout'))
     common.exception_truthiness(ctx, rep, "R04.8")
     runrules.detection_exact(ctx, rep, "R04.10")
+    taint.diagnosis_reads_flags_only(ctx, rep, "R04.12")
